@@ -2,7 +2,7 @@
 (* Trace validation for C13.  Every line recorded from the real             *)
 (* ChannelArbitrator (harness/contractcourt/c13_test.go) must be exactly    *)
 (* one action of Arbitrator - the code as it is: F8Fixed = F9Fixed =        *)
-(* F15Fixed = FALSE unless a repair is overlaid - and after every line the  *)
+(* FccFixed = FALSE unless a repair is overlaid - and after every line the  *)
 (* durable state read back from the database (log state, contracts bucket   *)
 (* with stage and resolved flag, resolutions, commit set) and the durable   *)
 (* flags of the rest of the node must equal the model's.  Crash and Restart *)
